@@ -86,7 +86,7 @@ def build(case):
             args = list(ups)
             for pos, v in sp.get("literals", []):
                 args.insert(pos, val_from_json(v))
-            n = streamz.zip(*args, maxsize=1000)
+            n = streamz.zip(*args, **({"maxsize": sp["maxsize"]} if sp.get("maxsize") is not None else {}))
         elif k == "combine_latest":
             kw = {}
             if sp.get("emit_on") is not None:
@@ -101,7 +101,7 @@ def build(case):
 
             def f(x, L=L, bad=bad):
                 if bad and deep_sum(x) in bad:
-                    raise Boom(x)
+                    symbols_mod.boom(x, deep_sum(x))
                 L.append(x)
             n = ups[0].sink(f)
         else:
@@ -397,6 +397,12 @@ class Gen:
                     spec["fail"] = self.bad()
                 nodes.append(spec)
                 types.append(None)
+        # a blocking emit through a pipeline that owns an event loop (partition) really waits for zip's
+        # backpressure future - for ever in a single-threaded producer - so small bounds only without a loop
+        if any(sp["k"] == "partition" for sp in nodes):
+            for sp in nodes:
+                if sp["k"] == "zip":
+                    sp["maxsize"] = 1000
         # events
         events = []
         nrc = 0
@@ -523,7 +529,8 @@ class Gen:
                     lits.append([pos, r.choice([7, 9])])
                     n_out += 1
                 e = common(ts) if not lits else (INT if common(ts) == INT else ANY)
-                return {"k": "zip", "ups": ups, "literals": lits}, T_tup(n_out, e)
+                # small bounds: a blocking emit ignores the returned wait-future, so one input may run far ahead
+                return {"k": "zip", "ups": ups, "literals": lits, "maxsize": r.choice([None, 1, 1, 2])}, T_tup(n_out, e)
             if k == "combine_latest":
                 eo = None
                 if r.random() < 0.4:
